@@ -118,10 +118,23 @@ func (b *batcherImpl) Run() { //nolint:revive
 				case call := <-b.callC:
 					b.failCall(call, ErrShuttingDown)
 				default:
-					if b.adding.Load() == 0 {
-						return
+					if b.adding.Load() != 0 {
+						// An Add() is between its closed check and the enqueuing of its call
+						runtime.Gosched()
+						continue
 					}
-					runtime.Gosched()
+
+					// No Add() can enqueue anymore (the ones that start from now on see the batcher closed), but
+					// one may have enqueued its call after the queue was found empty and before the counter was
+					// read: what the queue holds now is all it will ever hold
+					for {
+						select {
+						case call := <-b.callC:
+							b.failCall(call, ErrShuttingDown)
+						default:
+							return
+						}
+					}
 				}
 			}
 		}
